@@ -102,6 +102,10 @@ func ExponentialBackoff(backoff time.Duration, factor, jitter float64) Backoff {
 		if resp != nil && resp.StatusCode == http.StatusTooManyRequests {
 			if v := resp.Header.Get(headerRetryAfter); v != "" {
 				if retryAfter, _ := strconv.ParseInt(v, 10, 64); retryAfter > 0 {
+					if retryAfter > math.MaxInt64/int64(time.Second) {
+						// saturate instead of overflowing
+						return math.MaxInt64
+					}
 					return time.Duration(retryAfter) * time.Second
 				}
 			}
